@@ -73,6 +73,9 @@ func c05Ops() []Op {
 		Op{Kind: "create", HasSum: true, Summary: " leading blank"},
 		Op{Kind: "switch", Time: "13:00", Resume: true, ResumeNth: 1},
 		Op{Kind: "pause", Extend: true, Ticks: []int{600}},
+		// pauses that run past the hour: the value gets an hour and a minute part and is extended again
+		Op{Kind: "pause", Ticks: []int{3600, 3661, 3725}},
+		Op{Kind: "pause", Extend: true, Ticks: []int{3661, 3725, 7260}},
 	)
 	return ops
 }
@@ -81,6 +84,8 @@ type c05Case struct {
 	File   int    `json:"file"`
 	Op     Op     `json:"op"`
 	Before fw.Txt `json:"before"`
+	Env    *int   `json:"env,omitempty"`   // index into the ENV family
+	Event  string `json:"event,omitempty"` // what happened to the file between two refreshes
 }
 
 func init() {
@@ -91,13 +96,21 @@ func init() {
 			"x " + fmt.Sprint(len(c05Ops())) + " commands (those of C04 plus 15 failure-directed ones: unknown --date for stop/switch, end before start, entry text that is no entry / re-indents / contains a blank line, invalid flag values, switch whose second step fails, pause --extend without pause); quick: every 3rd file. " +
 			"All through klog.Run (real exit status, real write path). " +
 			"Plus PAIRS = every pair of catalogue edits on two different lines of each initial file (" + fmt.Sprint(c05PairCount()) + " files; quick: every 8th) x the same commands, command struct on the real context and real write path (commands whose flag values the CLI would reject are skipped there; the single-edit family runs them through klog.Run). " +
+			"Plus ENV = `klog pause` / `pause --extend` running over three minute boundaries on every initial file with a pausable open range, with ONE external change of the file injected before refresh 0, 1 or 2 " +
+			"(made unparseable; the record replaced by an unrelated one; a valid record appended): an unusable file must make the command fail and stay exactly as the external change left it, an appended record must survive (result = the undisturbed run's result + the appended text). " +
 			"A case = (file, command); distinct by hash of both.",
 		Assumptions: []string{
 			"exit 0 => the file afterwards is accepted by klog's parser and by the reference parser (lenient reading of klog's own don't-care zones); exit != 0 => bytes identical and no other file appeared in the directory; a panic is a violation",
 			"I/O faults and crash points are not part of this property's quantifier",
 		},
-		Units: func(t fw.Tier) int { return len(c05Files()) + (c05PairCount()+c05PairChunk-1)/c05PairChunk },
+		Units: func(t fw.Tier) int { return len(c05Files()) + (c05PairCount()+c05PairChunk-1)/c05PairChunk + 1 },
 		RunUnit: func(c *fw.Ctx, unit int) {
+			if unit == len(c05Files())+(c05PairCount()+c05PairChunk-1)/c05PairChunk {
+				for i := 0; i < c05EnvCount(); i++ {
+					c05Env(c, i)
+				}
+				return
+			}
 			if unit >= len(c05Files()) {
 				lo := (unit - len(c05Files())) * c05PairChunk
 				for i := lo; i < lo+c05PairChunk && i < c05PairCount() && !c.Expired(); i++ {
@@ -121,6 +134,10 @@ func init() {
 		Replay: func(c *fw.Ctx, raw json.RawMessage) {
 			var cs c05Case
 			if json.Unmarshal(raw, &cs) == nil {
+				if cs.Env != nil {
+					c05Env(c, *cs.Env)
+					return
+				}
 				c05One(c, cs.File, string(cs.Before), cs.Op)
 			}
 		},
@@ -190,7 +207,7 @@ func c05One(c *fw.Ctx, fi int, before string, o Op) {
 		r = RunOp(clidrv.Home("home"), path, o, c04Env)
 	}
 	after := clidrv.ReadFile(path)
-	cs := c05Case{fi, o, fw.Txt(before)}
+	cs := c05Case{File: fi, Op: o, Before: fw.Txt(before)}
 	c.Eval(1)
 	c.Nontrivial(fw.HashMix(fw.HashString(before), fw.HashString(o.String())))
 	if r.Panicked {
@@ -231,4 +248,92 @@ func c05One(c *fw.Ctx, fi int, before string, o Op) {
 		return
 	}
 	c.Sample(func() any { return map[string]any{"case": cs, "after": after} })
+}
+
+// ---- ENV: the file changes under a running `klog pause` (one external event between two refreshes)
+
+var c05EnvEvents = []string{"unparseable", "record-gone", "record-appended"}
+var c05EnvOps = []Op{{Kind: "pause", Ticks: []int{61, 125, 190}}, {Kind: "pause", Extend: true, Ticks: []int{61, 125, 190}}, {Kind: "pause", HasSum: true, Summary: "break", Ticks: []int{61, 3661, 3725}}}
+
+func c05EnvCount() int { return len(c04PauseStates()) * len(c05EnvOps) * len(c05EnvEvents) * 3 }
+
+func c05Env(c *fw.Ctx, i int) {
+	d := docgen.Radix(i, len(c04PauseStates()), len(c05EnvOps), len(c05EnvEvents), 3)
+	before := c04Init[c04PauseStates()[d[0]]]
+	o := c05EnvOps[d[1]]
+	event, at := c05EnvEvents[d[2]], d[3]
+	dir := filepath.Join(fw.Scratch(), "c05env")
+	os.RemoveAll(dir)
+	os.MkdirAll(dir, 0755)
+	path := filepath.Join(dir, "target.klg")
+	home := clidrv.Home("home")
+	idx := i
+	cs := c05Case{File: -1, Op: o, Before: fw.Txt(before), Env: &idx, Event: fmt.Sprintf("%s before refresh %d", event, at)}
+	c.Eval(1)
+	c.Nontrivial(fw.HashMix(fw.HashString(before+o.String()), uint64(i)+1<<45))
+	// the undisturbed run
+	os.WriteFile(path, []byte(before), 0644)
+	r0 := RunOp(home, path, o, c04Env)
+	final0 := clidrv.ReadFile(path)
+	if r0.Panicked || r0.Code != 0 {
+		c.Outcome("env-base-fails") // e.g. --extend without a pause entry: nothing to disturb
+		return
+	}
+	// the disturbed run
+	os.WriteFile(path, []byte(before), 0644)
+	external, appended := "", "\n2031-01-01\n    1h external\n"
+	env := c04Env
+	env.OnTick = func(k int) {
+		if k != at {
+			return
+		}
+		cur := clidrv.ReadFile(path)
+		switch event {
+		case "unparseable":
+			external = cur + "\nthis is not a record\n"
+		case "record-gone":
+			external = "2001-01-01\n    1h unrelated\n"
+		default:
+			external = cur
+			if !strings.HasSuffix(cur, "\n") {
+				external += "\n"
+			}
+			external += appended
+		}
+		os.WriteFile(path, []byte(external), 0644)
+	}
+	r := RunOp(home, path, o, env)
+	after := clidrv.ReadFile(path)
+	if r.Panicked {
+		c.Violation("panic:pause-env:"+fw.PanicSite(r.Stack), cs, fmt.Sprintf("`klog %s` panicked when the file changed under it: %v\n%s", o.String(), r.PanicVal, r.Stack))
+		return
+	}
+	switch event {
+	case "unparseable", "record-gone":
+		// is there still a write due after the event? (the pause value changes at every refresh of these schedules)
+		if r.Code == 0 {
+			c.Violation("env-failure-not-reported", cs, fmt.Sprintf("the file was made unusable (%s) under a running `klog %s`, yet the command reports success.\nexternal content: %q\nfile afterwards:  %q", cs.Event, o.String(), external, after))
+			return
+		}
+		if after != external {
+			c.Violation("env-failed-but-changed", cs, fmt.Sprintf("`klog %s` failed (exit %d) after the file was changed externally (%s), but did not leave the file untouched.\nexternal content: %q\nfile afterwards:  %q", o.String(), r.Code, cs.Event, external, after))
+			return
+		}
+		c.Outcome("env-fails-untouched")
+	default:
+		want := final0
+		if !strings.HasSuffix(want, "\n") {
+			want += "\n"
+		}
+		want += appended
+		if r.Code != 0 || after != want {
+			c.Violation("env-external-edit-lost", cs, fmt.Sprintf("a record was appended to the file under a running `klog %s` (%s); exit %d, file afterwards\n%q\nexpected the undisturbed result plus the appended record\n%q", o.String(), cs.Event, r.Code, after, want))
+			return
+		}
+		if _, _, errs, p, _, _ := klogParse(after); p || len(errs) > 0 {
+			c.Violation("success-but-invalid", cs, fmt.Sprintf("`klog %s` reported success but the file does not parse: %s", o.String(), errSummary(errs)))
+			return
+		}
+		c.Outcome("env-edit-survives")
+	}
 }
